@@ -42,42 +42,48 @@ from .. import leanio, pyextract
 from ..core import Ctx, ExtractError, load_corpus
 
 ID = "C10"
-LEVEL = "proof"
+LEVEL = "proof"            # the evidence schema's `level` is the technique category (enum without "partial")
+LEVEL_CLAIMED = "partial"  # DESIGN §8: the idle clause counted from the receipt of a change is proved only under a guard (C10-F2)
 ENGINES = ["lean-model", "pyextract", "kopfsim"]
 LEVEL_TEXT = (
-    "Lean theorems about a state-carrying model of the _timer loop (the in-memory handler state is carried from iteration "
-    "to iteration; whether an iteration invokes the function is derived from it), for ALL configurations "
-    "(interval/sharp/idle/initial_delay present or absent, backoff, errors mode, retries), all iteration records (any "
-    "duration, any patch round trip), all result scripts and all timings of object changes: no_overlap; "
-    "invoked_unless_failed (invariant: every iteration is a run until the timer fails for good) and failed_is_last (after a "
-    "final failure no iteration of any sequence invokes the function — derived from the kept state, not stipulated); "
-    "interval_law / sharp_grid / error_delay_law at sequence level (the next iteration IS a run and starts at patched + "
-    "interval / the first grid point start + k*interval strictly after patched / max(patched, ended + delay), later only "
-    "through the idle gate, with the exact form of the postponement); initial_delay_law (every spawn); idle_only_law; "
-    "one_shot. Idle clause: idle_law (arbitrary view of idle_reset_time) and idle_law_full: with idle_reset_time derived "
-    "from an ARBITRARY history of processed events (reset when the essence differs from the last-handled or from the "
-    "last-seen one, as since repair 201494d), no run starts within the idle time after ANY essential change (FullIdle), "
-    "under the one residual guard that the per-object memory is created by the first processed event (how memories.recall "
-    "works); changes made while no operator runs are not events of the history: after a restart the first sight counts. "
-    "The former counterexample (A -> B -> A with B never handled, "
-    "fixed finding C10-F1) is a regression example in Lean and in the corpus. The model is hand-written; its branch chain, reset "
-    "condition, idle-reset condition (processing._detect_causes), loop conditions, sleep arithmetic and statement skeleton are re-extracted from the AST on every run and "
-    "proved equal (T), and every loop iteration of seeded closed-loop simulations is compared with it (S): invocation "
-    "decision, retry kwarg, state after the run, next start (tick-exact), carried state at the next iteration, the reset "
-    "decision per processed event and every read of idle_reset_time against the value derived from the event history. "
-    "Assumes interval > 0 where present and no handler timeout.")
+    "PARTIAL by DESIGN §8's definition: the idle clause counted from the RECEIPT of a change is proved only under the guard "
+    "NoRunDuringProcessing (idle_law_partial); unguarded it is false of the code: idle_recv_clause_false_witness + open "
+    "finding C10-F2 (idle_reset_time is stamped only after the on.event handlers of the cycle; witness replayed in every run). "
+    "Everything else is unguarded: Lean theorems about a state-carrying model of the _timer loop (the in-memory handler state "
+    "incl. the series' `started` is carried from iteration to iteration; whether an iteration invokes the function is derived "
+    "from it), for ALL configurations (interval/sharp/idle/initial_delay present or absent, backoff, errors mode, retries, "
+    "timeout), all iteration records (any duration, any patch round trip), all result scripts and all timings of object "
+    "changes: no_overlap; invoked_unless_failed (every iteration is a run until the timer fails for good, or the strict "
+    "timeout/retries pre-check ends the series there; invoked_unless_failed_no_timeout), failed_is_last (per timer task: a "
+    "re-spawned task starts afresh, AUDIT_B2 §D-12 = C11's subject), timeout_ends_series, timeout_before_first_call (AUDIT_B2 "
+    "§D-11: idle >= timeout on a fresh object, never invoked: observation, C11's clause); interval_law / sharp_grid / "
+    "error_delay_law at sequence level (the next iteration is a run and starts at patched + interval / the first grid point "
+    "start + k*interval strictly after patched / max(patched, ended + delay), later only through the idle gate, exact form of "
+    "the postponement); initial_delay_law (every spawn); idle_only_law; one_shot; idle_law (arbitrary view) and idle_law_full "
+    "(UNGUARDED, idle_reset_time derived from an arbitrary history of processed events and any creation time of the memory: no "
+    "run within idle after any essential change stamped at the instant its cycle reaches process_spawning_cause; the first "
+    "event of a memory counts when the object differs from its last-handled essence — a restart on an unchanged handled object "
+    "is not a change). The model is hand-written; its branch chain, state-reset condition, idle-reset condition "
+    "(processing._detect_causes), loop conditions, sleep arithmetic and statement skeleton are re-extracted from the AST on "
+    "every run and proved equal (T); every loop iteration of seeded closed-loop simulations is compared with it (S): "
+    "invocation / pre-check decision, retry kwarg, state after the run incl. started, next start (tick-exact), carried state "
+    "at the next iteration, the real cause.reset of every event and every read of idle_reset_time against the derived view. "
+    "execute_handler_once's timeout/retries checks are mirrored by hand (S-tied; C11 owns their grid). Assumes interval > 0.")
 TIE = ("T: post-run branch chain + state-reset condition + idle-reset condition of _detect_causes + idle-gate/poll expressions + stopper guards + statement skeleton of "
        "daemons._timer re-extracted and proved equal to the model; S: per loop iteration of closed-loop simulations: invocation "
        "decision, carried state, exact tick equality of the next start; per event the reset decision; per read the derived view")
 THEOREMS = [("Kopf.Props.C10", "Kopf.C10." + n) for n in [
     "no_overlap_step", "no_overlap", "invoked_unless_failed", "failed_is_last", "failed_run_marks_state",
     "success_marks_state", "interval_law_step", "interval_law", "sharp_grid_step", "sharp_grid", "error_delay_step",
-    "error_delay_law", "initial_delay_law", "idle_law", "idle_law_full", "idle_only_law", "one_shot"]]
+    "error_delay_law", "initial_delay_law", "idle_law", "idle_law_full", "idle_law_partial", "idle_recv_clause_false_witness",
+    "idle_only_law", "one_shot",
+    "invoked_unless_failed_no_timeout", "timeout_ends_series", "timeout_before_first_call"]]
 TIE_THEOREMS = [("Kopf.Tie.C10", "Kopf.C10.Tie." + n) for n in [
     "post_eq", "reset_top_eq", "at_top_eq", "reset_cond_eq", "resets_idle_eq", "idle_cond_eq", "idle_delay_eq", "poll_cond_eq", "poll_delay_eq", "shape_eq", "stopper_guards_eq", "idle_step_eq", "poll_step_eq"]]
 RULE = ("seeded scenarios: 1-2 timers on 1-2 objects, all 16 presence combinations of interval/sharp/idle/initial_delay "
         "(stratified), scripted results ok/ok+result/ok+patch/temporary(delay)/arbitrary/permanent with function durations "
-        "0, <, =-1tick, =, =+1tick, > the interval (1.5x, 2x, 2.5x), backoff/retries/errors options, optional update handler "
+        "0, <, =-1tick, =, =+1tick, > the interval (1.5x, 2x, 2.5x), backoff/retries/errors/timeout options (timeout below, at, above "
+        "idle and interval), optional slow @kopf.on.event handler (the event is processed later than received), optional update handler "
         "(so that status patches are / are not idle resets), status subresource (2 PATCH round trips), object edits at random "
         "dyadic times, label toggles (respawn) and operator restarts for timers with an interval; a second pass replays a "
         "third of the scenarios with one extra edit placed exactly at an observed start, at start - idle, and 1 tick either "
@@ -89,10 +95,11 @@ TRUSTED = ["harness/sim (virtual-time loop, fake API server with 1/64 s latency,
            "logging property on DaemonsMemory.idle_reset_time",
            "pyextract vocabulary for daemons._timer (statement recognisers, arithmetic atoms)"]
 ASSUMPTIONS = ["interval > 0 and idle > 0 where present (interval = 0 divides by zero in the sharp branch / spins otherwise)",
-               "handler `timeout` unset (its strict pre-check can end a retry series without invoking the function); retries >= 1",
                "the stopper is not modelled: it only truncates a run sequence (every loop condition carries it: stopper_guards_eq)",
                "initial_delay is a number (callables are evaluated by the same line of code)"]
 
+F2_SIG = {"site": "processing.process_resource_causes",
+          "shape": "idling is reset only after the on.event handlers of the cycle: a timer runs while an essential change is being processed"}
 F1_SIG = {"site": "processing._detect_causes",
           "shape": "an essential change that restores the last-handled essence is not an idle reset"}
 
@@ -373,6 +380,7 @@ class Probe:
         self.tasks: dict[Any, dict] = {}
         self.instances: list[dict] = []
         self.writes: list[dict] = []
+        self.events: list[dict] = []
         self._mems: list[Any] = []
 
     @contextlib.contextmanager
@@ -382,7 +390,21 @@ class Probe:
         from kopf._core.intents import handlers as handlers_
         from ..sim import runner
         probe = self
+        from kopf._core.reactor import processing
         orig_timer, orig_exec, orig_pac = daemons._timer, execution.execute_handlers_once, application.patch_and_check
+        orig_psc = processing.process_spawning_cause
+
+        async def process_spawning_cause(**kw: Any) -> Any:
+            cause, memory = kw["cause"], kw["memory"]
+            try:
+                body = json.loads(json.dumps(dict(cause.body), default=repr))
+                ess, lh = _norms(body)
+                probe.events.append({"uid": body.get("metadata", {}).get("uid"), "inc": runner._incarnation.get(), "t": now(),
+                                     "reset": bool(cause.reset), "ess_norm": ess, "lh_norm": lh, "mem": id(memory.daemons_memory)})
+                probe._mems.append(memory.daemons_memory)
+            except Exception as e:  # noqa: BLE001
+                probe.events.append({"error": repr(e)})
+            return await orig_psc(**kw)
 
         def now() -> float:
             return asyncio.get_running_loop().time()
@@ -419,7 +441,8 @@ class Probe:
             off = _sl.WALL.now_s() - now()      # wall clock vs loop clock (0 within one loop)
             dl = None if st.delayed is None else (st.delayed - _sl.EPOCH).total_seconds() - off
             it: dict[str, Any] = {"t0": now(), "attempt": int(st.retries or 0), "t1": None, "p0": None, "p1": None,
-                                  "state": {"retries": int(st.retries or 0), "success": bool(st.success), "failure": bool(st.failure),
+                                  "state": {"started": (st.started - _sl.EPOCH).total_seconds() - off,
+                                            "retries": int(st.retries or 0), "success": bool(st.success), "failure": bool(st.failure),
                                             "delayed": dl}}
             if len(inst["iters"]) >= 2000 and inst["iters"][-2000]["t0"] == it["t0"]:
                 inst["spin"] = True     # 2000 runs within one instant: stop observing a loop that never suspends
@@ -468,6 +491,7 @@ class Probe:
             probe.writes.append({"mem": id(self), "t": t, "v": v})
             probe._mems.append(self)
 
+        processing.process_spawning_cause = process_spawning_cause  # type: ignore[assignment]
         daemons._timer = _timer  # type: ignore[assignment]
         execution.execute_handlers_once = execute_handlers_once  # type: ignore[assignment]
         application.patch_and_check = patch_and_check  # type: ignore[assignment]
@@ -475,6 +499,7 @@ class Probe:
         try:
             yield
         finally:
+            processing.process_spawning_cause = orig_psc  # type: ignore[assignment]
             daemons._timer = orig_timer  # type: ignore[assignment]
             execution.execute_handlers_once = orig_exec  # type: ignore[assignment]
             application.patch_and_check = orig_pac  # type: ignore[assignment]
@@ -484,7 +509,7 @@ class Probe:
         insts = []
         for i in self.instances:
             insts.append({k: v for k, v in i.items() if k not in ("busy",)})
-        return {"instances": insts, "writes": self.writes}
+        return {"instances": insts, "writes": self.writes, "events": self.events}
 
 
 def _essence(body: dict) -> Any:
@@ -562,7 +587,7 @@ def run_one(sc: dict, wall: float) -> dict:
         tr["sim_error"] = f"{type(e).__name__}: {e}"
     calls = [{k: c.get(k) for k in ("t", "t_end", "uid", "id", "retry", "outcome", "delay", "n", "inc")}
              for c in tr.get("calls", []) if c.get("kind") == "timer"]
-    cycles = [{"t0": c["t0"], "uid": c["uid"], "event_type": c["event_type"], "rv": c["rv"], "ess": _essence(c["body"]),
+    cycles = [{"t0": c["t0"], "t1": c.get("t1"), "uid": c["uid"], "event_type": c["event_type"], "rv": c["rv"], "ess": _essence(c["body"]),
                "marked": bool(c["body"].get("metadata", {}).get("deletionTimestamp")), "inc": c["inc"],
                "lh_same": _lh_same(c["body"]), "ess_norm": _norms(c["body"])[0], "lh_norm": _norms(c["body"])[1]}
               for c in tr.get("cycles", [])]
@@ -663,6 +688,10 @@ def gen_timer(rng: Any, combo: int, tid: str, default_backoff: float) -> dict:
         opts["retries"] = rng.choice([1, 2, 3])
     if rng.random() < 0.2:
         opts["errors"] = rng.choice(["ignored", "temporary", "permanent"])
+    if rng.random() < 0.2:
+        # handler timeout: below / at / above the idle time and the interval (idle >= timeout: AUDIT_B2 §D-11)
+        ref = opts.get("idle") or opts.get("interval") or 1.0
+        opts["timeout"] = rng.choice([ref / 2, ref, ref + T, ref * 2, 0.5, 4.0, 8.0])
     base = opts.get("interval") or opts.get("idle") or 1.0
     durs = [0.0, 0.0, base / 2, base - T, base, base + T, base * 1.5, base * 2, base * 2.5, T, base - 2 * T]
     durs = [d for d in durs if d >= 0 and abs(d * TPS - round(d * TPS)) < 1e-9]
@@ -705,6 +734,9 @@ def gen_scenario(rng: Any, seed: int, combo: int) -> dict:
         handlers.append({"kind": "update", "id": "u1", "opts": {}, "script": [], "default": "ok"})
         if rng.random() < 0.5:
             handlers.append({"kind": "create", "id": "c1", "opts": {}, "script": [], "default": "ok"})
+    if rng.random() < 0.15:
+        # a slow @kopf.on.event handler: the event reaches process_spawning_cause later than the memory is created
+        handlers.append({"kind": "event", "id": "e1", "opts": {}, "script": [], "default": ["sleep", rng.choice([T, 0.5, 2.0]), "ok"]})
     idle_only = any(("idle" in t["opts"]) and ("interval" not in t["opts"]) for t in timers)
     names = ["a"] + (["b"] if rng.random() < 0.15 else [])
     sc: dict[str, Any] = {"seed": seed, "handlers": handlers, "settings": {"execution.default_backoff": default_backoff}}
@@ -780,7 +812,7 @@ def _timer_cfgs(sc: dict) -> dict[str, dict]:
             o = h["opts"]
             out[h["id"]] = {"interval": o.get("interval"), "sharp": bool(o.get("sharp")), "idle": o.get("idle"),
                             "initial_delay": o.get("initial_delay"), "backoff": o.get("backoff", dflt),
-                            "errors": o.get("errors", "temporary"), "retries": o.get("retries")}
+                            "errors": o.get("errors", "temporary"), "retries": o.get("retries"), "timeout": o.get("timeout")}
     return out
 
 
@@ -829,7 +861,8 @@ def oracle(ctx: Ctx, sc: dict, tr: dict, stats: dict | None = None) -> None:
         changes: list[dict] = []
         prev = prev_inc = None
         for c in cycles:
-            if prev is None or c["ess"] != prev or (prev_inc is not None and c["inc"] != prev_inc):
+            first = prev is None or (prev_inc is not None and c["inc"] != prev_inc)
+            if (first and c.get("lh_same") is not True) or (not first and c["ess"] != prev):
                 changes.append(c)
             prev, prev_inc = c["ess"], c["inc"]
         my = sorted([i for i in insts if i["uid"] == uid and i["id"] == hid], key=lambda i: i["spawn"])
@@ -845,8 +878,23 @@ def oracle(ctx: Ctx, sc: dict, tr: dict, stats: dict | None = None) -> None:
                     return it["p1"]
             return None
 
+        def recorded_final(c: dict) -> bool:
+            i = inst_of(c)
+            for it in (i["iters"] if i else []):
+                if it["t0"] == c["t"] and it.get("attempt") == c.get("retry") and it.get("outcome"):
+                    return bool(it["outcome"]["final"] and it["outcome"]["exc"])
+            return False
+
+        def reset_time(c: dict) -> float | None:
+            """when the cycle of this event reached process_spawning_cause (probe), None if it never did"""
+            ts = [e["t"] for e in tr["c10"].get("events", []) if e.get("uid") == uid and e.get("inc") == c["inc"]
+                  and c["t0"] <= e["t"] and (c.get("t1") is None or e["t"] <= c["t1"])]
+            return min(ts) if ts else None
+
         def last_cycle_upto(t: float) -> float | None:
-            ts = [c["t0"] for c in cycles if c["t0"] <= t]
+            # idling may postpone a run until `idle` after an event of the object was processed: the END of the
+            # latest processing cycle begun by then bounds every reset stamped so far
+            ts = [(c["t1"] if c.get("t1") is not None else c["t0"]) for c in cycles if c["t0"] <= t]
             return max(ts) if ts else None
 
         for k, b in enumerate(calls):
@@ -861,7 +909,12 @@ def oracle(ctx: Ctx, sc: dict, tr: dict, stats: dict | None = None) -> None:
                 seen = [c for c in changes if c["t0"] < b["t"]]
                 if seen and b["t"] < seen[-1]["t0"] + cfg["idle"]:
                     what = (f"timer {hid}: run at {b['t']} within idle={cfg['idle']} after the essential change seen at {seen[-1]['t0']}")
-                    if seen[-1].get("lh_same"):
+                    if seen[-1].get("t1") is not None and seen[-1]["t0"] < seen[-1]["t1"] and b["t"] <= seen[-1]["t1"] \
+                            and reset_time(seen[-1]) is not None and reset_time(seen[-1]) >= b["t"]:
+                        # the change was received, but its cycle had not reached process_spawning_cause yet (open finding C10-F2)
+                        ctx.oracle_fail(what + f" (its processing cycle reset idling only at {reset_time(seen[-1])})",
+                                        {"scenario": sc, "uid": uid, "id": hid, "call": b, "change": seen[-1]["t0"]}, F2_SIG)
+                    elif seen[-1].get("lh_same"):
                         # the change restored the essence recorded as last handled: kopf diffs against that, sees nothing
                         ctx.oracle_fail(what + " (the change restored the last-handled essence)",
                                         {"scenario": sc, "uid": uid, "id": hid, "call": b, "change": seen[-1]["t0"]}, F1_SIG)
@@ -880,6 +933,8 @@ def oracle(ctx: Ctx, sc: dict, tr: dict, stats: dict | None = None) -> None:
             if inst_of(a) is not i or i is None:
                 continue        # a respawn in between: the gap belongs to the initial delay
             kind, d = _kind_of(a, cfg)
+            if kind == "retry" and cfg["timeout"] is not None and recorded_final(a):
+                kind = "final"      # `runtime + delay >= timeout`: recorded as failed for good (the look-ahead of C11)
             if kind == "final":
                 # docs/timers.rst: "the timer stops forever and is not retried"
                 fail("permanent", f"timer {hid}: run at {b['t']} (retry={b.get('retry')}) after the run at {a['t']} had failed for good ({a.get('outcome')})",
@@ -939,7 +994,7 @@ def oracle(ctx: Ctx, sc: dict, tr: dict, stats: dict | None = None) -> None:
                          uid=uid, id=hid, prev=a, call=b)
             elif kind == "success" and cfg["interval"] is None and cfg["idle"] is not None:
                 # idle-only: needs a change since the previous run, and the idle time after it
-                if not any(a["t"] <= c["t0"] and c["t0"] + cfg["idle"] <= b["t"] for c in cycles):
+                if not any(a["t"] <= (c["t1"] if c.get("t1") is not None else c["t0"]) and c["t0"] + cfg["idle"] <= b["t"] for c in cycles):
                     fail("idle-only", f"timer {hid}: idle-only run at {b['t']} with no object event processed in [{a['t']}, {b['t']} - idle]",
                          uid=uid, id=hid, prev=a, call=b)
 
@@ -950,7 +1005,7 @@ def oracle(ctx: Ctx, sc: dict, tr: dict, stats: dict | None = None) -> None:
 def _cfg_json(cfg: dict) -> dict:
     return {"interval": ticks(cfg["interval"]), "sharp": cfg["sharp"], "idle": ticks(cfg["idle"]),
             "initial_delay": ticks(cfg["initial_delay"]), "backoff": ticks(cfg["backoff"]), "errors": cfg["errors"],
-            "retries": cfg["retries"]}
+            "retries": cfg["retries"], "timeout": ticks(cfg["timeout"])}
 
 
 def _res_json(call: dict) -> list:
@@ -980,7 +1035,8 @@ def _obs(inst: dict, lo: float, hi: float) -> list | None:
 
 
 def _state_json(st: dict) -> dict:
-    return {"retries": st["retries"], "success": st["success"], "failure": st["failure"], "delayed": ticks(st["delayed"])}
+    return {"started": ticks(st["started"]), "retries": st["retries"], "success": st["success"], "failure": st["failure"],
+            "delayed": ticks(st["delayed"])}
 
 
 def abstract(sc: dict, tr: dict) -> list[dict]:
@@ -1016,10 +1072,12 @@ def abstract(sc: dict, tr: dict) -> list[dict]:
         for k, it in enumerate(iters):
             if it["t1"] is None or it["p1"] is None:
                 continue    # still going on when the scenario ended / the operator was killed
-            invoked = it.get("outcome") is not None
+            o = it.get("outcome")
+            call = calls.get((inst["uid"], inst["id"], it["t0"], it["attempt"])) if o is not None else None
+            expired = o is not None and call is None and o["final"] and o["exc"] in ("HandlerTimeoutError", "HandlerRetriesError")
+            invoked = o is not None and not expired
             res = None
             if invoked:
-                call = calls.get((inst["uid"], inst["id"], it["t0"], it["attempt"]))
                 if call is None or call.get("t_end") is None:
                     items.append({"what": "unmatched", "inst": who, "iter": it})
                     continue
@@ -1027,22 +1085,24 @@ def abstract(sc: dict, tr: dict) -> list[dict]:
                     items.append({"what": "clock-mismatch", "inst": who, "iter": it, "call": call})
                     continue
                 res = _res_json(call)
-            itj = {"start": ticks(it["t0"]), "ended": ticks(it["t1"]), "patched": ticks(it["p1"]), "res": res}
+            # the entry state is observed after the reset at the loop top, so the model's `top` is not read for it
+            itj = {"top": ticks(it["t0"]), "start": ticks(it["t0"]), "ended": ticks(it["t1"]), "patched": ticks(it["p1"]), "res": res}
             nxt = iters[k + 1] if k + 1 < len(iters) else None
             hi = nxt["t0"] if nxt else alive_until
             obs = _obs(inst, it["p1"], hi)
-            o = it.get("outcome")
-            impl: dict[str, Any] = {"invokes": invoked, "attempt": it["attempt"],
+            impl: dict[str, Any] = {"invokes": invoked, "expires": expired, "attempt": it["attempt"],
                                     "next_start": ticks(nxt["t0"]) if nxt else None,
                                     "next_top": _state_json(nxt["state"]) if nxt else None}
-            if invoked:    # the state the real `with_outcomes` must have produced, from the observed outcome
-                impl["post"] = {"success": bool(o["final"] and not o["exc"]), "failure": bool(o["final"] and o["exc"]),
+            if o is not None:    # the state the real `with_outcomes` must have produced, from the observed outcome
+                impl["post"] = {"started": ticks(it["state"]["started"]),
+                                "success": bool(o["final"] and not o["exc"]), "failure": bool(o["final"] and o["exc"]),
                                 "delayed": None if o["final"] or o["delay"] is None else ticks(it["t1"]) + ticks(o["delay"]),
                                 "retries": it["attempt"] + 1}
             iv = cfg["interval"] or cfg["idle"] or 1.0
             dur = it["t1"] - it["t0"]
             durc = "0" if dur == 0 else "<" if dur < iv - T else "=-1" if dur == iv - T else "=" if dur == iv else "=+1" if dur == iv + T else ">"
-            shape = {"gap": "iter", "presence": presence, "res": res[0] if res else "nothing-awakened", "dur": durc,
+            shape = {"gap": "iter", "presence": presence, "timeout": cfg["timeout"] is not None,
+                     "res": res[0] if res else ("expired:" + o["exc"]) if expired else "nothing-awakened", "dur": durc,
                      "rt": itj["patched"] - itj["ended"], "final": bool(o["final"]) if o else None, "last": nxt is None,
                      "state": (it["state"]["retries"] > 0, it["state"]["failure"], it["state"]["delayed"] is not None)}
             items.append({"what": "iter", "obs_ok": obs is not None,
@@ -1059,46 +1119,32 @@ def _intern(table: dict[str, int], x: Any) -> int:
 
 
 def abstract_resets(sc: dict, tr: dict) -> list[dict]:
-    """(a) One item per (object, instant) at which the operator processed exactly one event: was idle_reset_time
-    written? (b) One item per timer task: every value of idle_reset_time it read, against the value derived by the
-    model from the history of processed events (reads at an instant in which an event of the object is processed
+    """(a) One item per event that reached `process_spawning_cause` (observed there: loop time, the essence of the body,
+    the last-handled essence it carries, the real `cause.reset`): the model's reset decision given the previously
+    processed essence of the same memory. (b) One item per timer task: every value of idle_reset_time it read, against
+    the value derived by the model from that history (reads at an instant in which an event of the object is processed
     are left out: their order within the instant is not observable)."""
-    mem_of = {(i["uid"], i["inc"]): i["mem"] for i in tr["c10"]["instances"]}
-    writes: dict[tuple, int] = {}
     created: dict[int, float] = {}
     for w in tr["c10"]["writes"]:
-        writes[(w["mem"], w["t"])] = writes.get((w["mem"], w["t"]), 0) + 1
         created.setdefault(w["mem"], w["v"])
     table: dict[str, int] = {}
-    groups: dict[tuple, list[dict]] = {}
-    history: dict[tuple, list[list]] = {}
-    first_seen: set[tuple] = set()
-    for c in tr["cycles"]:
-        key = (c["uid"], c["inc"])
-        if key not in mem_of:
-            continue
-        e = _intern(table, c["ess_norm"])
-        lh = None if c["lh_norm"] is None else _intern(table, c["lh_norm"])
-        seen = history[key][-1][1] if history.get(key) else None
-        history.setdefault(key, []).append([ticks(c["t0"]), e, lh])
-        if c["event_type"] == "DELETED":
-            continue
-        if key not in first_seen:     # the memory is created (and stamped) in this cycle
-            first_seen.add(key)
-            continue
-        groups.setdefault((c["uid"], c["inc"], c["t0"]), []).append({"ess": e, "lh": lh, "seen": seen})
+    history: dict[int, list[list]] = {}
     items = []
-    for (uid, inc, t0), cs in groups.items():
-        if len(cs) != 1:
-            continue        # several events of one object processed in one instant: not attributable
-        lh, e, seen = cs[0]["lh"], cs[0]["ess"], cs[0]["seen"]
-        items.append({"what": "reset", "req": ["C10.reset", lh, seen, e],
-                      "impl": (mem_of[(uid, inc)], t0) in writes, "inst": {"uid": uid, "t0": t0}, "obs_ok": True,
+    for ev in tr["c10"]["events"]:
+        if "error" in ev:
+            items.append({"what": "crashed", "inst": ev})
+            continue
+        e = _intern(table, ev["ess_norm"])
+        lh = None if ev["lh_norm"] is None else _intern(table, ev["lh_norm"])
+        hist = history.setdefault(ev["mem"], [])
+        seen = hist[-1][1] if hist else None
+        hist.append([ticks(ev["t"]), e, lh])
+        items.append({"what": "reset", "req": ["C10.reset", lh, seen, e], "impl": ev["reset"],
+                      "inst": {"uid": ev["uid"], "t": ev["t"]}, "obs_ok": True,
                       "shape": {"gap": "reset", "lh": "none" if lh is None else "same" if lh == e else "differs",
-                                "seen": "same" if seen == e else "differs"}})
+                                "seen": "first" if seen is None else "same" if seen == e else "differs"}})
     for inst in tr["c10"]["instances"]:
-        key = (inst["uid"], inst["inc"])
-        evs = history.get(key, [])
+        evs = history.get(inst["mem"], [])
         if inst["mem"] not in created:
             continue
         busy = {e[0] for e in evs}
@@ -1135,8 +1181,8 @@ def compare(ctx: Ctx, sc: dict, item: dict, out: Any) -> None:
         nxt_start, nxt_top = impl["start"], impl["top"]
     else:
         # does this iteration invoke the function, with which retry kwarg, and which state does it leave
-        ctx.compare("C10 invocation decision", {"invokes": impl["invokes"], "attempt": impl["attempt"]},
-                    {"invokes": m["invokes"], "attempt": m["attempt"]}, wh)
+        ctx.compare("C10 invocation decision", {"invokes": impl["invokes"], "expires": impl["expires"], "attempt": impl["attempt"]},
+                    {"invokes": m["invokes"], "expires": m["expires"], "attempt": m["attempt"]}, wh)
         if impl["invokes"] and item.get("failed_before"):
             ctx.tie_fail("C10: the function was invoked after the timer had failed for good", {"input": wh, "impl": impl, "model": m})
         if "post" in impl:
@@ -1145,13 +1191,13 @@ def compare(ctx: Ctx, sc: dict, item: dict, out: Any) -> None:
     if nxt_start is not None:
         ctx.count("gate", "compared")
         ctx.compare("C10 next start", {"start": nxt_start, "top": nxt_top},
-                    {"start": res[1] if res[0] == "start" else res, "top": m["top"]}, wh)
+                    {"start": res[2] if res[0] == "start" else res, "top": m["top"]}, wh)
         return
     # no further iteration was observed: the model must not have predicted one while the task was alive
     ctx.tie_comparisons += 1
-    if res[0] == "start" and res[1] < item["alive_until"]:
+    if res[0] == "start" and res[2] < item["alive_until"]:
         ctx.tie_fail("C10 next start: the model predicts an iteration that did not happen",
-                     {"input": wh, "impl": {"start": None, "alive_until": item["alive_until"]}, "model": {"start": res[1]}})
+                     {"input": wh, "impl": {"start": None, "alive_until": item["alive_until"]}, "model": {"start": res[2]}})
     elif res[0] == "ended":
         if item.get("how") != "returned" or item.get("exit") != item["req"][3]["patched"]:
             ctx.tie_fail("C10: the model says the loop breaks, the timer task did not return there",
